@@ -94,6 +94,12 @@ Theorem C10_dump_roundtrip : forall h r,
 Proof. intros h r. split; [apply dump_roundtrip|apply dump_reencode]. Qed.
 Print Assumptions C10_dump_roundtrip.
 
+(* the executable isomorphism check evaluated by the driver's [holds_b] on the exported in-memory
+   and loaded histories implies the isomorphism of theorem 1 *)
+Theorem C10_iso_b_sound : forall H H', iso_b H H' = true -> iso H H'.
+Proof. exact iso_b_sound. Qed.
+Print Assumptions C10_iso_b_sound.
+
 (* non-vacuity: a history with a shared parent and an intermediate ancestor satisfies the
    hypotheses of 1 and 2, is saved and loaded within a budget of 4, and the guard is true *)
 Example C10_guard_satisfiable :
